@@ -64,6 +64,11 @@ func (vs *ValidatorStore) CheckMaliciousValidators(es *evidence.EvidenceStore, g
 			continue
 		}
 		if votes < evidenceOptions.MinVotesRequired {
+			// already frozen: a new record would replace the one in force (a byzantine fault
+			// record by a missed-votes record with another release time)
+			if _, frozen := vs.maliciousValidators[addr]; frozen {
+				continue
+			}
 			key := append(vs.prefix, baddr...)
 			data := vs.store.GetVersioned(vs.lastHeight-1, key)
 			if len(data) == 0 {
